@@ -214,7 +214,22 @@ func genC16(e *emitter, tier string, seed int64) {
 		rs := append(append([]scriptSrc{}, scripts...),
 			scriptSrc{"tz1.p", fmt.Sprintf("default_time(ts, %q)\np(get_key(ts))\n", zones[(2*r)%len(zones)])},
 			scriptSrc{"tz2.p", fmt.Sprintf("add_key(t2, \"171113 14:14:20\")\ndefault_time(t2, %q)\nrename(t3, t2)\nrename(m9, message)\np(get_key(t3), get_key(m9), get_key(pl_msg))\n", zones[(2*r+1)%len(zones)])})
-		cs := concSpec{Scripts: rs, Entries: append(append([]string{}, entries...), "tz1.p", "tz2.p", "tz1.p", "tz2.p"), ParseSrcs: parseSrcs, Goroutines: g, OpsEach: 4 + rng.Intn(8), Seed: rng.Int63(), Points: points}
+		// (round 7) keywords in spellings no parse of this process has met before: whatever the lexer remembers
+		// about a spelling is first touched while other goroutines are parsing
+		mixCase := func(t string) string {
+			b := []byte(t)
+			for i, c := range b {
+				if c >= 'A' && c <= 'Z' && rng.Intn(2) == 0 {
+					b[i] = c + 32
+				}
+			}
+			return string(b)
+		}
+		roundSrcs := append(append([]string{}, parseSrcs...),
+			mixCase("IF TRUE {\n  x = NIL\n} ELIF FALSE {\n  y = 1\n} ELSE {\n  z = 2\n}\n"),
+			mixCase("FOR i IN [1, 2] {\n  IF i == 1 {\n    CONTINUE\n  }\n  BREAK\n}\n"),
+			mixCase("q = TRUE && FALSE || NIL == NIL\nFOR ;; {\n  BREAK\n}\n"))
+		cs := concSpec{Scripts: rs, Entries: append(append([]string{}, entries...), "tz1.p", "tz2.p", "tz1.p", "tz2.p"), ParseSrcs: roundSrcs, Goroutines: g, OpsEach: 4 + rng.Intn(8), Seed: rng.Int63(), Points: points}
 		raw, _ := json.Marshal(cs)
 		var out map[string]any
 		if inWorker {
